@@ -188,6 +188,43 @@ def run(ck, F):
             ck.check(R_given, 'make_id_expr(decl)', got == 'P0.type()', f'{fid}: type() yields `{got}`, expected the declaration\'s type',
                      loc=F.fn[fid]['loc'], fn=fid)
 
+    # the type a node reports is the one it was given, whatever is requested afterwards
+    R_keep = ck.rule('C09.type-kept', 'the type a factory-built node reports is not changed by a later request to the same factory (any '
+                     'arguments; found and fresh paths): type() of the first request\'s node, evaluated before and after the second request, '
+                     'is the same term -- up to the identities that `the table found an equal element` implies on that path', floor=200)
+    import history
+    import keyrule
+    SK = Sym(F, opaque=keyrule.key_opaque(F), max_depth=48)
+    for f in sorted(wire.all_factories(F), key=lambda f: f['id']):
+        sid = '::'.join(contracts.fn_qname(f['id']).split('::')[-2:]) + '/' + str(len(f['params']))
+        bad = []
+        try:
+            for st1, k1, v1 in S.run(f['id']):
+                if k1 != 'return' or not isinstance(v1, tuple):
+                    continue
+                node = v1[1] if v1[0] == 'addr' else v1
+                if not (isinstance(node, tuple) and node[0] == 'obj' and node[1] in st1.heap):
+                    continue
+                tfo = [fo for fo in F.final_overrider_by_name(st1.heap[node[1]].cls, 'type') if fo in F.fn]
+                if len(tfo) != 1 or F.fn[tfo[0]]['params']:
+                    continue
+                before = [(k, history.deep(v, s)) for s, k, v in S.run(tfo[0], this=node, args=[], state=st1.fork())]
+                base_eff = len(st1.effects)
+                for st2, _k2, _v2 in S.run(f['id'], args=keyrule.qparams(len(f['params'])), state=st1.fork()):
+                    s2 = st2.fork()
+                    s2.throw = None          # a refused second request must leave the node as it was, too
+                    after = [(k, history.deep(v, s)) for s, k, v in S.run(tfo[0], this=node, args=[], state=s2)]
+                    if after == before:
+                        continue
+                    eqs = history.found_equalities(F, SK, st2, base_eff)
+                    if eqs and [(k, history.rewrite(v, eqs)) for k, v in after] == before:
+                        continue
+                    bad.append(f'type() of the node built by the first request was {[contracts.render(v, st1, {})[:60] if k == "return" else "throw " + str(v) for k, v in before]} '
+                               f'and is {[contracts.render(v, st2, {})[:60] if k == "return" else "throw " + str(v) for k, v in after]} after a second request')
+        except Unsupported as e:
+            raise AnalysisBroken(f'{f["id"]} (second request): {e}')
+        ck.check(R_keep, sid, not bad, f'{f["id"]}: ' + '; '.join(sorted(set(bad))[:2]), loc=f['loc'], fn=f['id'])
+
     # sequence types computed on demand
     R_seq = ck.rule('C09.sequence-types', 'the type of a scope / parameter list / expression list is a typed_sequence view of '
                     'the live member sequence: size() and get(i) delegate, nothing is cached', floor=12)
